@@ -342,8 +342,32 @@ class Interp3(Interp2):
             self._ord_cache[key] = m
         return self._ord_cache[key].get((node.lineno, node.col_offset))
 
+    def arbiter_selects(self, n):
+        """arbiter mode unrolls the loops whose contract obligations failed (all loops when none is named)"""
+        sel = self.config.get('arbiter_where')
+        return not sel or ('%s:%d' % (self.frame.fname, n.lineno)) in sel
+
     def x_While(self, n):
         spec = self.loop_spec_for(n)
+        arb = self.config.get('arbiter_unroll')
+        if arb and spec is not None and spec.unroll is None and self.arbiter_selects(n):
+            # arbiter mode (see cli.arbitrate): the loop contract is ignored and the loop is unrolled; paths that need
+            # more than `arb` iterations are dropped, so the result is a BOUNDED statement
+            count = 0
+            while True:
+                if not self.truth(self.eval(n.test)):
+                    self.exec_block(n.orelse)
+                    return
+                count += 1
+                if count > arb:
+                    self.arbiter_dropped = getattr(self, 'arbiter_dropped', 0) + 1
+                    raise PathEnd()
+                try:
+                    self.exec_block(n.body)
+                except BreakSig:
+                    return
+                except ContinueSig:
+                    continue
         if spec is None or spec.unroll is not None:
             limit = spec.unroll if spec is not None else UNROLL_LIMIT
             count = 0
@@ -407,6 +431,26 @@ class Interp3(Interp2):
                 return self.lazy_for(n, lz)
             raise OutOfReach('for loop over symbolic-length iterable without invariant (%s line %d)'
                              % (self.frame.fname, n.lineno))
+        arb = self.config.get('arbiter_unroll')
+        if arb and spec.unroll is None and self.arbiter_selects(n):
+            from .gens import iteration_protocol
+            length, elem = iteration_protocol(self, it)
+            j = 0
+            while True:
+                if not self.decide(length > j):
+                    self.exec_block(n.orelse)
+                    return
+                if j >= arb:
+                    self.arbiter_dropped = getattr(self, 'arbiter_dropped', 0) + 1
+                    raise PathEnd()
+                self.assign_target(n.target, elem(z3.IntVal(j)))
+                j += 1
+                try:
+                    self.exec_block(n.body)
+                except BreakSig:
+                    return
+                except ContinueSig:
+                    continue
         self.invariant_loop(n, spec, kind='for', iterable=it)
 
     def run_generator(self, g):
@@ -464,6 +508,88 @@ class Interp3(Interp2):
                     if isinstance(b, ast.Name):
                         recv.add(b.id)
         return names, recv
+
+    # ---- counters: facts that hold by construction of the loop (no user invariant needed) ---------------------
+    @staticmethod
+    def _int_const(e):
+        if isinstance(e, ast.Constant) and type(e.value) is int:
+            return e.value
+        if isinstance(e, ast.UnaryOp) and isinstance(e.op, ast.USub) and isinstance(e.operand, ast.Constant) \
+                and type(e.operand.value) is int:
+            return -e.operand.value
+        return None
+
+    def counter_steps(self, body):
+        """{name: c} for the locals that every COMPLETE iteration changes by exactly the integer constant c: the only
+        store to the name in the whole body is one top-level statement `v += c` / `v -= c` / `v = v + c` / `v = c + v`
+        / `v = v - c`, and no `continue` can skip it.  After k complete iterations v == v_entry + c*k."""
+        for s in body:
+            for x in ast.walk(s):
+                if isinstance(x, (ast.Continue, ast.Global, ast.Nonlocal)):
+                    return {}
+        stores = {}
+        for s in body:
+            for x in ast.walk(s):
+                if isinstance(x, ast.Name) and isinstance(x.ctx, (ast.Store, ast.Del)):
+                    stores[x.id] = stores.get(x.id, 0) + 1
+        out = {}
+        for s in body:
+            nm = c = None
+            if isinstance(s, ast.AugAssign) and isinstance(s.target, ast.Name) and isinstance(s.op, (ast.Add, ast.Sub)):
+                v = self._int_const(s.value)
+                if v is not None:
+                    nm, c = s.target.id, (v if isinstance(s.op, ast.Add) else -v)
+            elif isinstance(s, ast.Assign) and len(s.targets) == 1 and isinstance(s.targets[0], ast.Name) \
+                    and isinstance(s.value, ast.BinOp) and isinstance(s.value.op, (ast.Add, ast.Sub)):
+                t = s.targets[0].id
+                l, r = s.value.left, s.value.right
+                if isinstance(l, ast.Name) and l.id == t and self._int_const(r) is not None:
+                    nm, c = t, (self._int_const(r) if isinstance(s.value.op, ast.Add) else -self._int_const(r))
+                elif isinstance(s.value.op, ast.Add) and isinstance(r, ast.Name) and r.id == t and self._int_const(l) is not None:
+                    nm, c = t, self._int_const(l)
+            if nm is not None and stores.get(nm) == 1 and c != 0:
+                out[nm] = c
+        return out
+
+    def _loop_constant_expr(self, e, changed):
+        """e is built from names the loop does not assign or mutate, integer constants, len() of such names, + and -"""
+        if isinstance(e, ast.Constant):
+            return type(e.value) is int
+        if isinstance(e, ast.Name):
+            return e.id not in changed
+        if isinstance(e, ast.BinOp) and isinstance(e.op, (ast.Add, ast.Sub)):
+            return self._loop_constant_expr(e.left, changed) and self._loop_constant_expr(e.right, changed)
+        if isinstance(e, ast.Call) and isinstance(e.func, ast.Name) and e.func.id == 'len' and len(e.args) == 1 \
+                and not e.keywords and isinstance(e.args[0], ast.Name) and 'len' not in changed:
+            return e.args[0].id not in changed
+        return False
+
+    def counter_guards(self, test, steps, changed):
+        """[(name, z3 comparison builder, bound term)] for the conjuncts `v < B`, `v <= B`, `v > B`, `v >= B` (either
+        orientation) of a while test, v a counter and B constant over the loop; B is evaluated at loop entry"""
+        conj = test.values if isinstance(test, ast.BoolOp) and isinstance(test.op, ast.And) else [test]
+        out = []
+        flip = {ast.Lt: ast.Gt, ast.LtE: ast.GtE, ast.Gt: ast.Lt, ast.GtE: ast.LtE}
+        mk = {ast.Lt: lambda a, b: a < b, ast.LtE: lambda a, b: a <= b, ast.Gt: lambda a, b: a > b, ast.GtE: lambda a, b: a >= b}
+        for c in conj:
+            if not (isinstance(c, ast.Compare) and len(c.ops) == 1 and type(c.ops[0]) in flip):
+                continue
+            l, r, op = c.left, c.comparators[0], type(c.ops[0])
+            if isinstance(r, ast.Name) and r.id in steps and not (isinstance(l, ast.Name) and l.id in steps):
+                l, r, op = r, l, flip[op]
+            if not (isinstance(l, ast.Name) and l.id in steps and self._loop_constant_expr(r, changed)):
+                continue
+            self.pure += 1
+            try:
+                b = self.eval(r)
+                if not self.is_intlike(b) or isinstance(b, (bool, SBool)):
+                    continue
+                out.append((l.id, mk[op], self.int_term(b)))
+            except (OutOfReach, PyRaise):
+                continue
+            finally:
+                self.pure -= 1
+        return out
 
     def havoc_value(self, v, name, shape=None):
         """Fresh value of the same kind as v."""
@@ -572,6 +698,14 @@ class Interp3(Interp2):
             from .gens import iteration_protocol
             length, elem = iteration_protocol(self, iterable)
         loop_entry = self.snapshot()
+        # counters (facts by construction, see counter_steps): entry values and loop-constant bounds taken before the havoc
+        steps = self.counter_steps(n.body)
+        cnt_entry = {}
+        for nm in steps:
+            v0 = self.try_lookup_local(nm)
+            if v0 is not _MISSING and self.is_intlike(v0) and not isinstance(v0, (bool, SBool)):
+                cnt_entry[nm] = self.int_term(v0)
+        cnt_guards = self.counter_guards(n.test, steps, names | recv) if kind == 'while' else []
         # 1. invariant holds on entry
         k0 = {'_k': 0, '__loop_entry__': loop_entry}
         self.run_hints(spec, 'entry', k0)
@@ -613,6 +747,14 @@ class Interp3(Interp2):
         self.assume(kterm >= 0)
         if length is not None:
             self.assume(kterm <= length)
+        for nm, v0 in cnt_entry.items():
+            cur = self.try_lookup_local(nm)
+            if cur is not _MISSING and self.is_intlike(cur):
+                self.assume(self.int_term(cur) == v0 + steps[nm] * kterm)
+        for nm, cmp, b in cnt_guards:
+            if nm in cnt_entry:
+                # the guard held when the last completed iteration began
+                self.assume(z3.Implies(kterm > 0, cmp(cnt_entry[nm] + steps[nm] * (kterm - 1), b)))
         for inv in spec.invariants:
             self.assume(self.eval_clause(inv, ghost))
         self.run_hints(spec, 'head', ghost)
